@@ -340,6 +340,60 @@ class CFG(object):
                 queue.append(m)
         return None
 
+    # ---------------------------------------------------------------- path-sensitive reachability
+    def tracker(self):
+        if getattr(self, '_tracker', None) is None:
+            self._tracker = Tracker(self)
+        return self._tracker
+
+    def reachable_ps(self, src=None, avoid_nodes=(), avoid_edges=(), labels_excluded=(), init=None):
+        """Like reachable() but correlated branches are respected: two tests with the same text over
+        never-reassigned operands take the same outcome on one path, and flag variables assigned
+        None/False/constructor results decide a later `if flag:`.  Returns the set of nodes."""
+        tr = self.tracker()
+        src = src or self.entry
+        avoid_nodes = set(avoid_nodes)
+        avoid_edges = set(avoid_edges)
+        start = (src, frozenset((init or {}).items()))
+        if src in avoid_nodes:
+            return set()
+        seen = {start}
+        stack = [start]
+        nodes = {src}
+        while stack:
+            n, dec = stack.pop()
+            d = dict(dec)
+            eff = tr.effect(n)
+            if eff:
+                for k, v in eff.items():
+                    if v is None:
+                        d.pop(k, None)
+                    else:
+                        d[k] = v
+            tk = tr.test_key(n)
+            for m, l in n.succ:
+                if l in labels_excluded or (n, l) in avoid_edges or (n, l, m) in avoid_edges or m in avoid_nodes:
+                    continue
+                d2 = d
+                if tk is not None and l in ('true', 'false'):
+                    key, positive = tk
+                    want = (l == 'true') if positive else (l == 'false')
+                    if key in d:
+                        if d[key] != want:
+                            continue
+                    else:
+                        d2 = dict(d)
+                        d2[key] = want
+                st = (m, frozenset(d2.items()))
+                if st in seen:
+                    continue
+                if len(seen) > 200000:
+                    raise RuntimeError('reachable_ps: state explosion')
+                seen.add(st)
+                nodes.add(m)
+                stack.append(st)
+        return nodes
+
     def dominators(self):
         if self._dom is not None:
             return self._dom
@@ -374,6 +428,121 @@ class CFG(object):
         if len(items) > limit:
             items = items[:limit // 2] + ['...'] + items[-limit // 2:]
         return ' -> '.join(items)
+
+
+class Tracker(object):
+    """Predicates tracked by reachable_ps for one function."""
+
+    def __init__(self, cfg):
+        self.cfg = cfg
+        assigned = set()
+        flag_assign = {}
+        for n in cfg.nodes:
+            if n.kind in ('stmt', 'for', 'with') and n.ast is not None:
+                for t in _store_targets(n):
+                    assigned.add(t)
+        self.assigned = assigned
+        self._tk = {}
+        self._eff = {}
+        for n in cfg.nodes:
+            if n.kind == 'test':
+                self._tk[n] = self._key(n.ast)
+            elif n.kind == 'stmt' and isinstance(n.ast, ast.Assign) and len(n.ast.targets) == 1 \
+                    and isinstance(n.ast.targets[0], ast.Name):
+                name = n.ast.targets[0].id
+                v = n.ast.value
+                if isinstance(v, ast.Constant) and v.value in (None, False, 0, True):
+                    self._eff[n] = {name: bool(v.value)}
+                elif isinstance(v, ast.Call) and _looks_like_object(v):
+                    self._eff[n] = {name: True}
+                else:
+                    self._eff[n] = {name: None}
+            elif n.kind in ('stmt', 'for', 'with', 'except') and n.ast is not None:
+                eff = {}
+                for t in _store_targets(n):
+                    eff[t] = None
+                if eff:
+                    self._eff[n] = eff
+        # predicates over self.* do not survive a call on self / super / a wait (state may change)
+        self._self_keys = set(k[0] for k in self._tk.values() if k is not None and 'self.' in k[0])
+        for n in cfg.nodes:
+            if n.kind in ('stmt', 'test') and n.ast is not None and self._self_keys:
+                for x in ast.walk(n.ast):
+                    if isinstance(x, ast.Call) and isinstance(x.func, ast.Attribute):
+                        root = x.func
+                        while isinstance(root, ast.Attribute):
+                            root = root.value
+                        if (isinstance(root, ast.Name) and root.id == 'self') or \
+                                (isinstance(root, ast.Call) and norm(root.func) == 'super') or x.func.attr == 'wait':
+                            eff = dict(self._eff.get(n, {}))
+                            for k in self._self_keys:
+                                if n.kind == 'test' and self._tk.get(n) is not None and self._tk[n][0] == k:
+                                    continue
+                                eff[k] = None
+                            self._eff[n] = eff
+                            break
+
+    def _key(self, expr):
+        # flag variable
+        if isinstance(expr, ast.Name):
+            return (expr.id, True)
+        if isinstance(expr, ast.Compare) and len(expr.ops) == 1 and isinstance(expr.left, ast.Name) \
+                and isinstance(expr.comparators[0], ast.Constant) and expr.comparators[0].value is None:
+            if isinstance(expr.ops[0], ast.Is):
+                return None     # `x is None` is not the same predicate as truthiness
+        # generic predicate: no operand is ever assigned in the function, no call inside
+        for x in ast.walk(expr):
+            if isinstance(x, ast.Call):
+                f = norm(x.func)
+                if f not in ('len', 'isinstance', 'type', 'bool'):
+                    return None
+        names = set()
+        for x in ast.walk(expr):
+            if isinstance(x, ast.Name):
+                names.add(x.id)
+            elif isinstance(x, ast.Attribute):
+                names.add(norm(x))
+        if names & self.assigned:
+            return None
+        return (norm(expr), True)
+
+    def test_key(self, n):
+        return self._tk.get(n)
+
+    def effect(self, n):
+        return self._eff.get(n)
+
+
+def _store_targets(n):
+    out = set()
+    a = n.ast
+    tg = []
+    if isinstance(a, ast.Assign):
+        tg = a.targets
+    elif isinstance(a, (ast.AugAssign, ast.AnnAssign)):
+        tg = [a.target]
+    elif isinstance(a, ast.For) and n.kind == 'for':
+        tg = [a.target]
+    elif isinstance(a, ast.With) and n.kind == 'with':
+        tg = [i.optional_vars for i in a.items if i.optional_vars is not None]
+    elif isinstance(a, ast.ExceptHandler) and a.name:
+        out.add(a.name)
+    elif isinstance(a, ast.Delete):
+        tg = a.targets
+    for t in tg:
+        for x in ast.walk(t):
+            if isinstance(x, ast.Name):
+                out.add(x.id)
+            elif isinstance(x, ast.Attribute):
+                out.add(norm(x))
+    return out
+
+
+def _looks_like_object(call):
+    """Constructor-like call whose result is truthy: CamelCase callee or .from_xxx factory."""
+    f = call.func
+    name = f.attr if isinstance(f, ast.Attribute) else (f.id if isinstance(f, ast.Name) else '')
+    return name[:1].isupper() or name.startswith('from_')
 
 
 def _default_may_raise(node):
